@@ -192,6 +192,8 @@ type FuncSpec struct {
 	// "typednil" a nil *FailErr inside the error interface (still a non-nil error),
 	// "unsat" a fresh *argmapper.ErrArgumentUnsatisfied, "wrapunsat" an error wrapping one.
 	FailAs string `json:"failAs"`
+	// FailOn = k > 0: the body fails on its k-th execution only (Fails is set too: the function may fail)
+	FailOn int `json:"failOn"`
 	// Upper: spell the names of this function's struct tags / value sets in upper case
 	Upper bool `json:"upper"`
 }
